@@ -14,7 +14,8 @@ Record c17_case := {
   o_vertices : list (string * (string * Z));
   o_edges : list (string * (string * Z));
   o_races : nat;
-  o_crashed : bool }.
+  o_crashed : bool;
+  o_index_missing : nat }.   (* graph-creation race: acknowledged elements that the label index does not list *)
 
 Definition kind_eqb (a b : kind) := match a, b with KV, KV | KE, KE => true | _, _ => false end.
 Definition wkey (w : wr) := match w with WPut k key _ _ _ => (k, key) | WDel k key _ => (k, key) end.
@@ -58,9 +59,10 @@ Definition final_ok (c : c17_case) : bool :=
   forallb (fun k => if has_unacked c k then key_ok_weak c k else key_ok c k) (all_keys c).
 
 (* model vs code: the final state is one the interleaving model allows *)
-Definition agrees (c : c17_case) : bool := negb (o_crashed c) && final_ok c.
+Definition agrees (c : c17_case) : bool := negb (o_crashed c) && final_ok c && (o_index_missing c =? 0)%nat.
 (* the property on the observation: alive, no race reported, final state explained by acknowledged edits *)
-Definition spec_ok (c : c17_case) : bool := negb (o_crashed c) && (o_races c =? 0)%nat && final_ok c.
+Definition spec_ok (c : c17_case) : bool :=
+  negb (o_crashed c) && (o_races c =? 0)%nat && final_ok c && (o_index_missing c =? 0)%nat.
 
 Fixpoint idx_filter {A} (f : A -> bool) (l : list A) (i : nat) : list nat :=
   match l with [] => [] | x :: r => if f x then i :: idx_filter f r (S i) else idx_filter f r (S i) end.
